@@ -24,7 +24,7 @@ CHECKS = {
          "DESIGN.md section 7, C03"),
  "C04": ("exploration",
          "bounded exhaustive enumeration of derivations of a reference grammar, each under every printing, through both parse entry points",
-         "All spines of <= 2 (thorough 3, and 4-5 over the reduced context set) compound-statement contexts (17 contexts: each body of if/else/while/for/case/default/gate/def as block or single statement) around ~65 leaf statement templates and (to depth 1, thorough 2) around 268 grid leaves (17 quantum statement forms x 8 operand forms, 6 declaration qualifiers x 16 types, 12 assignment operators x 3 target forms), all sequences of 2 (thorough 3) statements, all two- and three-operator expression trees over 19 binary and 3 unary operators in 12 expression positions, printed with minimal, full and redundant parentheses and 7 uniform separator flavours; plus 54 statement texts of constructs outside the model grammar that the parser supports (arrays, extern, calibration, old-style registers, durationof, alias concatenation, built-in calls) in 5 positions x 6 separator flavours; any diagnostic of SourceFile::parse or parse_check_lex is a violation. Every context x construct pair is present by construction.",
+         "All spines of <= 2 (thorough 3, and 4-5 over the reduced context set) compound-statement contexts (17 contexts: each body of if/else/while/for/case/default/gate/def as block or single statement) around ~65 leaf statement templates and (to depth 1, thorough 2) around 268 grid leaves (17 quantum statement forms x 8 operand forms, 6 declaration qualifiers x 16 types, 12 assignment operators x 3 target forms), all sequences of 2 (thorough 3) statements, all two- and three-operator expression trees over 19 binary and 3 unary operators in 12 expression positions, printed with minimal, full and redundant parentheses and 8 uniform separator flavours (one with a non-ASCII line comment); plus 54 statement texts of constructs outside the model grammar that the parser supports (arrays, extern, calibration, old-style registers, durationof, alias concatenation, built-in calls) in 5 positions x 6 separator flavours; any diagnostic of SourceFile::parse or parse_check_lex is a violation. Every context x construct pair is present by construction.",
          "The model grammar is listed in DESIGN.md 4.4; arrow measurement and box statements, which the parser does not accept, are outside the claim. Genuine rejections are recorded as known findings keyed by message + construct (DESIGN.md 10.4); repaired ones are in 10.3.",
          "DESIGN.md section 7, C04"),
  "C05": ("exploration",
@@ -79,7 +79,7 @@ CHECKS = {
          "DESIGN.md section 7, C14"),
  "C15": ("exploration",
          "exhaustive enumeration of all ordered pairs and triples of lexeme instances times separator flavours against a hand-written expected-kind table",
-         "About 190 lexeme instances (every keyword and type name, punctuation, integer/float spellings, number+unit, identifiers incl. Unicode and keyword-prefixed, hardware qubits, bit strings, strings, comments, pragma/annotation lines, version header) in all ordered triples, and those plus every number spelling x every unit (glued and with a blank; ~520 instances) in all ordered pairs x 7 separators and alone with leading/trailing trivia; the non-trivia token table must be exactly the expected (kind, text) list with no lexical error, hence identical across separators.",
+         "About 190 lexeme instances (every keyword and type name, punctuation, integer/float spellings, number+unit, identifiers incl. Unicode and keyword-prefixed, hardware qubits, bit strings, strings, comments, pragma/annotation lines, version header) in all ordered triples, and those plus every number spelling x every unit (glued and with a blank; ~520 instances) in all ordered pairs x 9 separators and alone with leading/trailing trivia; the non-trivia token table must be exactly the expected (kind, text) list with no lexical error, hence identical across separators.",
          "Expected kinds are a hand-written table (keywords by naming convention). must_separate is conservative. Bare OPENQASM / pragma are excluded (header / line forms only). One finding recorded (upper-case base prefix glued to a unit).",
          "DESIGN.md section 7, C15"),
  "C16": ("exploration",
@@ -89,7 +89,7 @@ CHECKS = {
          "DESIGN.md section 7, C16"),
  "C17": ("exploration",
          "exhaustive enumeration of relational variants (layouts within a gap-deviation bound, renamings, all split points, repeated analysis) of every generated program; differential equality with no hand-written expected value",
-         "Every leaf template alone and inside each of 17 contexts after its declarations, every leaf behind one or two annotation lines, supported grid leaves, statement sequences (with annotation lines) and (thorough) programs with one injected semantic fault are analysed under: the 7 uniform layouts and every layout deviating from the default in <= 1 gap (thorough <= 2 gaps for short statements) of the statements after the prelude with each of 6 separator flavours (all gaps for the first program); 4 fixed injective renamings of all user identifiers (ASCII, leading underscore, Unicode, keyword-prefixed) plus rotations, reversal and every adjacent swap of the identifiers among themselves; every split at a top-level statement boundary (also directly after annotation lines); and twice unchanged. Graph equality (PartialEq), symbol table equality up to the renaming, equal diagnostic kinds (up to the renaming), prefix property for statements / symbols / diagnostics, and full equality including positions for the repeated run.",
+         "Every leaf template alone and inside each of 17 contexts after its declarations, every leaf behind one or two annotation lines, supported grid leaves, statement sequences (with annotation lines) and (thorough) programs with one injected semantic fault are analysed under: the 8 uniform layouts and every layout deviating from the default in <= 1 gap (thorough <= 2 gaps for short statements) of the statements after the prelude with each of 7 separator flavours (all gaps for the first program); 4 fixed injective renamings of all user identifiers (ASCII, leading underscore, Unicode, keyword-prefixed) plus rotations, reversal and every adjacent swap of the identifiers among themselves; every split at a top-level statement boundary (also directly after annotation lines); and twice unchanged. Graph equality (PartialEq), symbol table equality up to the renaming, equal diagnostic kinds (up to the renaming), prefix property for statements / symbols / diagnostics, and full equality including positions for the repeated run.",
          "Layouts beyond the deviation bound and renamings beyond the listed families are not covered. Programs not analysed (rejected or panicking) are skipped and counted.",
          "DESIGN.md section 7, C17"),
  "C18": ("exploration",
